@@ -21,6 +21,7 @@
     dependencies of the named tasks --, order clause) evaluated by the driver on the observations of the cli run; on the
     api run: selected list == specified selection.
 """
+import shutil
 import itertools
 import json
 import random
@@ -471,6 +472,8 @@ def process_batch(batch):
                                'model_of_code': m.get('head')}, 'correspondence M8: ' + d)
     for w, f, n in found_shrunk + found_raw:       # shrunk witnesses first: they become the replay files
         st.violation(w, f, n)
+    # this runs in a forked pmap worker: common.cleanup_scratch() of the parent never sees the directory
+    shutil.rmtree(work, ignore_errors=True)
     return st
 
 
